@@ -94,8 +94,64 @@ def normalise_function(node, methods=None, module=None):
             elif isinstance(n.value, (ast.Tuple, ast.List)):
                 tables[n.targets[0].id] = n.value   # a literal table named first
 
+    stmt_helpers = {}
+    for n in ast.walk(fn):
+        if isinstance(n, ast.FunctionDef) and n is not fn and n.name not in helpers and not n.args.vararg and not n.args.kwarg and not n.args.kwonlyargs \
+                and not any(isinstance(x, (ast.Return, ast.Yield, ast.YieldFrom)) and getattr(x, "value", None) is not None for x in ast.walk(n)) \
+                and not any(isinstance(x, (ast.Nonlocal, ast.Global)) for x in ast.walk(n)):
+            stmt_helpers[n.name] = n
+
+    def _propagate(stmts, env=None):
+        """Straight-line forward substitution of plain local assignments; `if <constant>:` is replaced by the branch taken (its
+        statements continue the same straight line)."""
+        env = dict(env or {})
+        out = []
+        work = list(stmts)
+        while work:
+            st0 = work.pop(0)
+            st0 = _Subst(env).visit(st0) if env else st0
+            if isinstance(st0, ast.If):
+                t = st0.test
+                neg = False
+                while isinstance(t, ast.UnaryOp) and isinstance(t.op, ast.Not):
+                    neg, t = not neg, t.operand
+                if isinstance(t, ast.Constant):
+                    taken = st0.body if bool(t.value) != neg else st0.orelse
+                    work = list(taken) + work
+                    continue
+            if isinstance(st0, ast.Assign) and len(st0.targets) == 1 and isinstance(st0.targets[0], ast.Name):
+                env[st0.targets[0].id] = st0.value
+                continue   # the value travels to its uses
+            for x in ast.walk(st0):
+                if isinstance(x, ast.Name) and isinstance(x.ctx, ast.Store):
+                    env.pop(x.id, None)
+            out.append(st0)
+        return out
+
     class Expand(ast.NodeTransformer):
         depth = 0
+
+        def visit_Expr(self, e):
+            # `helper(a, b)` as a statement, helper a nested def made of statements: its body with the arguments written in
+            c = e.value
+            if isinstance(c, ast.Call) and isinstance(c.func, ast.Name) and c.func.id in stmt_helpers and self.depth < 4 and not c.keywords \
+                    and not any(isinstance(a, ast.Starred) for a in c.args):
+                h = stmt_helpers[c.func.id]
+                params = [a.arg for a in h.args.args]
+                if len(params) == len(c.args) and all(isinstance(a, (ast.Name, ast.Attribute, ast.Constant)) for a in c.args):
+                    m = dict(zip(params, c.args))
+                    body = [b for b in h.body if not (isinstance(b, ast.Expr) and isinstance(b.value, ast.Constant))]
+                    self.depth += 1
+                    try:
+                        outb = []
+                        for b in body:
+                            nb = _Subst(m).visit(copy.deepcopy(b))
+                            res = self.visit(nb)
+                            outb.extend(res if isinstance(res, list) else [res])
+                    finally:
+                        self.depth -= 1
+                    return outb
+            return self.generic_visit(e)
 
         def visit_Call(self, c):
             c = self.generic_visit(c)
@@ -247,11 +303,14 @@ def normalise_function(node, methods=None, module=None):
                     and not any(isinstance(n, ast.Name) and isinstance(n.ctx, ast.Store) and n.id in names for b in lp.body for n in ast.walk(b)):
                 out = []
                 for r in rows:
+                    blk = []
                     for b in lp.body:
                         nb = _Subst(dict(zip(names, r))).visit(copy.deepcopy(b))
                         nb = _Attr().visit(nb)
                         res = self.visit(nb)
-                        out.extend(res if isinstance(res, list) else [res])
+                        blk.extend(res if isinstance(res, list) else [res])
+                    blk = _propagate(blk)
+                    out.extend(_Attr().visit(b2) for b2 in blk)   # (setattr/getattr whose name became a constant only now)
                 return out
             return self.generic_visit(lp)
 
@@ -293,6 +352,18 @@ def normalise_function(node, methods=None, module=None):
                         return ast.copy_location(copy.deepcopy(v), n) if isinstance(n.ctx, ast.Load) and n.id == name else n
                 W().visit(stmt)
     fn = Expand().visit(fn)
+    # a local that only names an attribute chain (`parent = self.parent_team`, bound once, the attribute not assigned in this
+    # function): its uses are the chain itself
+    assigned_chains = {ast.unparse(t) for n in ast.walk(fn) if isinstance(n, (ast.Assign, ast.AugAssign, ast.AnnAssign))
+                       for t in (n.targets if isinstance(n, ast.Assign) else [n.target]) for t in ast.walk(t) if isinstance(t, ast.Attribute)}
+    pure = {k: v for k, v in aliases.items() if ast.unparse(v) not in assigned_chains and not any(isinstance(x, (ast.Call, ast.Subscript)) for x in ast.walk(v))}
+    if pure:
+        class A(ast.NodeTransformer):
+            def visit_Name(self, n):
+                if isinstance(n.ctx, ast.Load) and n.id in pure:
+                    return ast.copy_location(copy.deepcopy(pure[n.id]), n)
+                return n
+        fn = A().visit(fn)
     # copy propagation inside a block:  x = <expr> ; <target> = x   ->   <target> = <expr>
     for blk in ast.walk(fn):
         for field in ("body", "orelse", "finalbody"):
